@@ -50,14 +50,8 @@ def gen(rs: int, tier: str, index: int) -> dict:
                   durations={"zero": 1, "tiny": 1, "short": 2, "medium": 4, "long": 5, "poll": 2})
     from ._wcommon import maybe_cli_entry
     s = maybe_cli_entry(gen_worker_script(rs, tier_knobs(dict(kn, p_warn_error=0.08), tier, index)), index, 7, 5)
-    from sim.rng import stream
-    r = stream(rs, "c02synctimeout")
-    for m in s["messages"]:
-        # a generous timeout label on a sync (thread-pool) task: it never fires, the worker only notes that it cannot enforce it
-        ts = s["tasks"][m["task"]] if isinstance(m.get("task"), int) else {}
-        if m.get("kind", "valid") == "valid" and ts.get("sync") and m.get("timeout") is None and r.random() < 0.4:
-            tot = max(sum(a.get("steps", [0])) for a in m.get("attempts", [{}])) if m.get("attempts") else 0
-            m["timeout"] = (tot + int(m.get("pool_delay_us", 0)) + 30_000_000) / 1e6
+    from ._wcommon import sync_timeouts
+    sync_timeouts(s, rs, "c02synctimeout")
     return s
 
 
